@@ -144,7 +144,10 @@ def check_find_clashes(residues, tag="", options=None):
 # synthetic residue sets
 
 NUC_NAMES = atomtab.NUC_ATOMS["backbone"] + atomtab.NUC_ATOMS["G"]
-AA_NAMES = ["N", "CA", "C", "O", "CB", "OXT", "SG", "H1", "FE", "MG", "ZN", "CL", "NA", "SE", "1HB"]
+AA_NAMES = ["N", "CA", "C", "O", "CB", "OXT", "SG", "H1", "FE", "MG", "ZN", "CL", "NA", "SE", "1HB",
+            # names longer than the four PDB columns (builder / MD output for large ligands, legal in mmCIF) that agree in
+            # their first four characters
+            "C1001", "C1002", "O1001", "O1002", "N1001"]
 
 
 def build_residues(case):
